@@ -125,6 +125,20 @@ def run(tier):
             lines.append(line)
             meta[cid] = (arch, typ, len(bad), line, label)
             labels[arch + '/' + label.split('+')[0].split('-')[0]] = labels.get(arch + '/' + label.split('+')[0].split('-')[0], 0) + 1
+    # directed documents found by the coverage-guided stage in earlier runs (kept as regression canaries)
+    directed = [
+        ('msgpack', 'm_str_i32', '8bcb23ffff7b000000ffffffffffffffffffffcbffffffffffffffffffffffffffffffffffffffcbffffffffffffffffdc00009404f9ff', 'map with NaN keys'),
+        ('msgpack', 'm_str_str', '83cb7ff8000000000000a161cb7ff8000000000000a162ca7fc00000a163', 'map with NaN keys'),
+        ('msgpack', 'maps', '81a36d736983cb7ff8000000000000010203', 'NaN key in a member map'),
+    ]
+    for arch, typ, hexdoc, label in directed:
+        for cfg in ({'mis': 'skip', 'ovf': 'skip'}, {'mis': 'throw', 'ovf': 'throw'}):
+            for srcd in ({'src': 'mem'}, {'src': 'sstream'}, {'src': 'slow', 'step': 1}):
+                cid = 'h%d' % k
+                k += 1
+                line = D.case_line('load', arch, typ, cid, doc=hexdoc, isolate=1, meter=1, nodesc=1, cpu=20, **cfg, **srcd)
+                lines.append(line)
+                meta[cid] = (arch, typ, len(hexdoc) // 2, line, 'directed:' + label)
     by, crashes = core.run_cases(exe, lines, 'asan')
     for ln, key, err, rc in crashes:
         ck.harness_error('driver itself died (isolation failed?): %s %s' % (key, ln[:200]))
@@ -207,7 +221,8 @@ def fuzz_stage(ck, corpus, rng, total_time=None, jobs=12):
     total_time = total_time or int(os.environ.get('VERIF_FUZZ_SECONDS', '1200'))
     exe = build.build('fuzz_load', 'fuzz', ['fuzz_load.cpp'])
     work = os.path.join(build.BUILD, 'fuzz-work-%d' % ck.seed)
-    shutil.rmtree(work, ignore_errors=True)
+    if not os.environ.get("VERIF_KEEP_FUZZ"):
+        shutil.rmtree(work, ignore_errors=True)
     os.makedirs(os.path.join(work, 'corpus'))
     os.makedirs(os.path.join(work, 'artifacts'))
     sel = {'json': 0, 'xml': 8, 'msgpack': 16, 'csv': 24}
@@ -257,7 +272,8 @@ def fuzz_stage(ck, corpus, rng, total_time=None, jobs=12):
         key = 'fuzz/%s/%s' % (kind, (summ or 'rc=%s' % rc)[:90])
         ck.violation(key, {'driver': 'fuzz_load', 'variant': 'fuzz', 'input': data[:200000].hex(), 'stderr': err[-3000:]}, 'libFuzzer %s artifact reproduces: %s' % (kind, (summ or '')[:200]))
     ck.evaluations += execs
-    shutil.rmtree(work, ignore_errors=True)
+    if not os.environ.get("VERIF_KEEP_FUZZ"):
+        shutil.rmtree(work, ignore_errors=True)
 
 
 def replay(w):
